@@ -4,6 +4,7 @@ package main
 
 import (
 	"fmt"
+	"os"
 	"runtime/debug"
 	"go/token"
 	"go/types"
@@ -35,6 +36,10 @@ type Sched struct {
 	yieldCh     chan yieldMsg
 	preemptions int
 	bound       int
+	freeSwitches int
+	freeBound    int
+	pauses       []PausePoint
+	quiet        bool // no schedule exploration (deterministic run-until-block scheduling) while set
 	aborting    bool
 	trace       []int
 	events      []string
@@ -64,7 +69,7 @@ type chanState struct {
 func (ex *Exec) schedWanted(fn *ssa.Function) bool { return true }
 
 func (ex *Exec) runScheduled(fn *ssa.Function) {
-	s := &Sched{yieldCh: make(chan yieldMsg), bound: ex.defaultSchedBound()}
+	s := &Sched{yieldCh: make(chan yieldMsg), bound: ex.defaultSchedBound(), freeBound: ex.tier}
 	ex.sched = s
 	main := ex.newGoR("main")
 	go ex.gorBody(main, func() { ex.callFunction(fn, nil, nil, nil, token.NoPos) })
@@ -92,6 +97,11 @@ func (ex *Exec) runScheduled(fn *ssa.Function) {
 						s.leaked = append(s.leaked, fmt.Sprintf("%s blocked on %s", g.name, g.blockDesc))
 					}
 				}
+				if len(s.leaked) > 0 && ex.leakCheck {
+					m, _, _ := ex.model(nil)
+					ce := ex.recordCE("leak", "goroutine-leak", "goroutines blocked forever after the harness returned: "+strings.Join(s.leaked, "; "), token.Position{}, "", m)
+					ce.Pauses = append([]PausePoint{}, s.pauses...)
+				}
 				return
 			}
 		}
@@ -117,7 +127,7 @@ func (ex *Exec) runScheduled(fn *ssa.Function) {
 		case len(enabled) == 1:
 			next = enabled[0]
 		case curEnabled:
-			if s.preemptions < s.bound {
+			if s.preemptions < s.bound && !s.quiet {
 				// cur first (no preemption), then the others
 				order := []*GoR{s.cur}
 				for _, g := range enabled {
@@ -129,15 +139,46 @@ func (ex *Exec) runScheduled(fn *ssa.Function) {
 				next = order[k]
 				if k != 0 {
 					s.preemptions++
+					// remember where the preempted goroutine was stopped: the native replay inserts a pause there
+					if fr := ex.curFrame; fr != nil {
+						pos := ex.posOf(fr, fr.curPos)
+						s.pauses = append(s.pauses, PausePoint{File: pos.Filename, Line: pos.Line, Kind: s.cur.blockDesc, Func: shortFn(fr.fn.String())})
+					}
 				}
 			} else {
 				next = s.cur
 			}
 		default:
-			k := ex.choose(len(enabled), "sched")
-			next = enabled[k]
+			// the running goroutine blocked or finished: which of the others continues is a free choice, explored
+			// up to the free-switch budget; beyond it the lowest-numbered enabled goroutine runs
+			if s.freeSwitches < s.freeBound && !s.quiet {
+				k := ex.choose(len(enabled), "sched")
+				next = enabled[k]
+				if k != 0 {
+					s.freeSwitches++
+				}
+			} else {
+				next = enabled[0]
+			}
 		}
 		s.trace = append(s.trace, next.id)
+		if schedTrace {
+			var ds []string
+			for _, g := range s.gs {
+				if g.done {
+					continue
+				}
+				st := "run"
+				if g.blockedOn != nil {
+					st = "blk"
+					if g.blockedOn() {
+						st = "rdy"
+					}
+				}
+				ds = append(ds, fmt.Sprintf("%s:%s:%s", g.name, st, g.blockDesc))
+			}
+			fmt.Fprintf(os.Stderr, "SCHED -> %s | %s\n", next.name, strings.Join(ds, " "))
+		}
 		s.cur = next
 		next.blockedOn = nil
 		next.resume <- struct{}{}
@@ -192,6 +233,16 @@ func (ex *Exec) gorBody(g *GoR, f func()) {
 }
 
 type schedAbort struct{}
+
+// PausePoint is a source position at which a goroutine was preempted on a counterexample schedule.
+type PausePoint struct {
+	File string `json:"file"`
+	Line int    `json:"line"`
+	Kind string `json:"kind"`
+	Func string `json:"func"`
+}
+
+var schedTrace = os.Getenv("VERIF_SCHEDTRACE") != ""
 
 func (ex *Exec) abortAll() {
 	s := ex.sched
@@ -251,7 +302,8 @@ func (ex *Exec) blockUntil(pred func() bool, desc string) {
 func (ex *Exec) reportDeadlock(desc string) {
 	m, _, _ := ex.model(nil)
 	ce := ex.recordCE("deadlock", "deadlock", "all goroutines blocked: "+desc, token.Position{}, "", m)
-	ce.Sched = append([]int{}, ex.sched.trace...)
+	ce.Pauses = append([]PausePoint{}, ex.sched.pauses...)
+	ex.deadlocked = true
 }
 
 func (ex *Exec) spawn(fr *Frame, fn *FuncV, args []Value, pos token.Pos) {
@@ -723,6 +775,16 @@ func (ex *Exec) schedAPI(name string, args []Value, fr *Frame, pos token.Pos) Va
 			ex.sched.bound = ex.concInt(args[0], "verifSchedBound")
 		}
 		return nil
+	case "verifSchedQuiet":
+		if ex.sched != nil {
+			ex.sched.quiet = args[0].(*Term).cv != 0
+		}
+		return nil
+	case "verifSchedFreeBound":
+		if ex.sched != nil {
+			ex.sched.freeBound = ex.concInt(args[0], "verifSchedFreeBound")
+		}
+		return nil
 	case "verifYield":
 		ex.yield("verifYield")
 		return nil
@@ -813,11 +875,3 @@ func (ex *Exec) ioCall(full string, fn *ssa.Function, args []Value, fr *Frame, p
 	return nil, false
 }
 
-func (ex *Exec) cborCall(full string, fn *ssa.Function, args []Value, fr *Frame, pos token.Pos) Value {
-	if h := ex.cborHook; h != nil {
-		if v, ok := h(full, fn, args, fr, pos); ok {
-			return v
-		}
-	}
-	panic(unsupported{"cbor op " + full})
-}
